@@ -574,3 +574,49 @@ def success_values(body, oc=None):
         if t["t"] == "call" and not t["dest"]["p"] and t["dest"]["l"] in oc.carriers:
             out.append((bi, "term", strip_deep(oc.sym.call(t, bi))))
     return out
+
+
+def variant_edge(body, sym, bb, place_rx, value):
+    """If the switch at bb matches on discriminant(X) with render(X) ~ place_rx:
+    the edge taken for discriminant `value`."""
+    t = body.term(bb)
+    if t["t"] != "switch":
+        return None
+    d = strip(sym.operand(t["discr"]))
+    if d[0] != "discr" or not re.search(place_rx, render(strip_deep(d[1]))):
+        return None
+    for v, tb in t["targets"]:
+        if v == value:
+            return [(bb, tb)]
+    return [(bb, t["otherwise"])]
+
+
+def bool_place_edge(body, sym, bb, place_rx, truth):
+    """If the switch at bb is directly on a boolean place matching place_rx: the edge on
+    which it has value `truth`."""
+    t = body.term(bb)
+    if t["t"] != "switch" or t.get("dty") != "bool":
+        return None
+    term = strip(sym.operand(t["discr"]))
+    neg = False
+    while term[0] == "un" and term[1] == "Not":
+        neg = not neg
+        term = strip(term[2])
+    if not re.search(place_rx, render(strip_deep(term))):
+        return None
+    e = switch_bool_edges(body, bb)
+    if e is None:
+        return None
+    want_true = truth != neg
+    return [(bb, e[1] if want_true else e[0])]
+
+
+def any_of(*fns):
+    def g(body, sym, bb):
+        out = []
+        for fn in fns:
+            e = fn(body, sym, bb)
+            if e:
+                out += e
+        return out or None
+    return g
